@@ -12,6 +12,7 @@ structure St where
   db : DB := {}
   prev : DB := {}             -- the database before the last statement (for crash images)
   tables : List Bytes := []   -- user tables in creation order
+  preFlush : Store := {}      -- the store right before the last page flush (for torn-flush images)
   dead : Bool := false        -- a panic / unmodelled branch was reached: later outputs are not comparable
 
 def showSErr : SErr → String
@@ -43,6 +44,8 @@ def runStmt (st0 : St) (s : Stmt) : St × List String :=
   let st := { st0 with prev := st0.db }
   match s with
   | .createTable name cols =>
+    let pre : Store := match evalCreateTable st.db name cols [] false with | .ok _ db => db.store | _ => st.db.store
+    let st := { st with preFlush := pre }
     let r := finish st (evalCreateTable st.db name cols [])
     if r.2 == ["ok"] then ({ r.1 with tables := r.1.tables ++ [name] }, r.2) else r
   | .insert table cols rows => finish st (evalInsert st.db table cols (rows.map fun r => r.map litToVal))
@@ -153,12 +156,25 @@ def stepLine (st : St) (line : String) : St × List String :=
     | .panic _ => (st, ["recover panic", "end"])
     | .unmodelled w => (st, ["recover unmodelled " ++ w, "end"])
     | .fuel => (st, ["recover hang", "end"])
-  | ["flush"] => finish st (flush st.db [])
+  | "fimage" :: j :: _ :: _ :: ord :: _ =>
+    let order := ((ord.drop 6).toString.splitOn ",").filterMap (·.toNat?)
+    let img : DB := { store := tornFlush st.preFlush order (natOr j), wal := st.db.wal }
+    match recover img [] [] with
+    | .ok db =>
+      let (_, tl) := tableLines { db with store := reopen db.store } st.tables
+      (st, ["recover ok"] ++ tl ++ ["end"])
+    | .err _ db =>
+      let (_, tl) := tableLines { db with store := reopen db.store } st.tables
+      (st, ["recover initerr"] ++ tl ++ ["end"])
+    | .panic _ => (st, ["recover panic", "end"])
+    | .unmodelled w => (st, ["recover unmodelled " ++ w, "end"])
+    | .fuel => (st, ["recover hang", "end"])
+  | ["flush"] => finish { st with preFlush := st.db.store } (flush st.db [])
   | ["dump"] => (st, dumpLines st.db ++ ["end"])
   | ["reopen"] =>
     -- clean shutdown (flush) and open again: empty cache, header from the file
     match flush st.db [] with
-    | .ok _ db => ({ st with db := { db with store := reopen db.store } }, ["ok"])
+    | .ok _ db => ({ st with db := { db with store := reopen db.store }, preFlush := st.db.store }, ["ok"])
     | _ => ({ st with dead := true }, ["panic"])
   | ["crash"] => ({ st with db := { st.db with store := reopen st.db.store } }, ["ok"])
   | ["recover"] =>
@@ -389,6 +405,28 @@ def judgeLine (j : J) (op : String) (outs : List String) : J × List String :=
   | ["select", table] => judgeSelect j ((bytesOfHex table).getD []) outs
   | ["roots"] => judgeRoots j outs
   | "image" :: _ => judgeImage j op outs
+  | "fimage" :: _ :: kind :: alloc :: _ =>
+    -- C04: a crash inside a page flush; every acknowledged statement must survive
+    let cls := s!"{kind}:{if alloc == "alloc=1" then "alloc1" else "alloc0"}"
+    let rec0 := outs.head?.getD ""
+    let short := (op.take 100).toString
+    if rec0 != "recover ok" then (j, [vio j s!"db:fimage-recovery-failed:{cls}" s!"got=[{rec0}] op=[{short}]"]) else
+    let tabs := (outs.drop 1).filterMap fun l => match words l with
+      | "table" :: h :: _ => some ((bytesOfHex h).getD [], l)
+      | _ => none
+    let creating : Option Bytes := match kind, j.lastStmt with
+      | "create", some (.createTable n _) => some n
+      | _, _ => none
+    let bad := tabs.filter fun (n, l) =>
+      match findTable j.sdb n with
+      | none => false
+      | some t =>
+        if some n == creating then !(l.endsWith "err tableNotExist" || l.endsWith " rows")
+        else match tableOf l with
+          | some (_, rows) => rows.map (·.2) != t.rows.map (·.vals)
+          | none => true
+    if bad.isEmpty then (j, []) else
+      (j, [vio j s!"db:fimage-loss:{cls}" s!"tables={bad.map fun b => hexOrDash b.1} op=[{short}] got=[{(((bad.map (·.2)).headD "").take 200).toString}]"])
   | ["recover"] =>
     let out := outs.head?.getD ""
     if out == "ok" then ({ j with recovered := true }, [])
